@@ -149,4 +149,28 @@ theorem nodup_dedup (l : List Nat) : (dedup l).Nodup := by
       simp at hb; subst hb
       intro hab; subst hab; exact hy ha
 
+/-! ### the closure with both merges equals the plain closure -/
+
+theorem upsK_fst (wf : Wf) (sk : Bool) (p : Nat) : (upsK wf sk p).map (·.1) = ups wf sk p := by
+  unfold upsK ups
+  simp only [List.map_append, List.map_map]
+  congr 1
+  split <;> simp
+
+theorem collectK_true (rec1 rec2 : Nat → Option (List Nat)) (h : ∀ u, rec1 u = rec2 u) (l : List (Nat × Bool)) :
+    collectK true true rec1 l = collect rec2 (l.map (·.1)) := by
+  induction l with
+  | nil => rfl
+  | cons x xs ih =>
+    obtain ⟨u, k⟩ := x
+    simp only [collectK, List.map_cons, collect, ih, h u]
+    cases rec2 u <;> cases collect rec2 (xs.map (·.1)) <;> cases k <;> simp
+
+theorem closureK_true (wf : Wf) (sk : Bool) (f p : Nat) : closureK wf sk true true f p = closureF wf sk f p := by
+  induction f generalizing p with
+  | zero => rfl
+  | succ f ih =>
+    simp only [closureK, closureF]
+    rw [collectK_true _ (closureF wf sk f) (fun u => ih u), upsK_fst]
+
 end SciVerif.Graph
